@@ -3,8 +3,10 @@ package simrt
 // PRNG: SplitMix64 — small, seedable, identical everywhere.
 type Rng struct{ s uint64 }
 
+//go:norace
 func NewRng(seed uint64) *Rng { return &Rng{s: seed} }
 
+//go:norace
 func (r *Rng) Uint64() uint64 {
 	r.s += 0x9e3779b97f4a7c15
 	z := r.s
@@ -14,6 +16,8 @@ func (r *Rng) Uint64() uint64 {
 }
 
 // Intn returns a value in [0,n).
+//
+//go:norace
 func (r *Rng) Intn(n int) int {
 	if n <= 1 {
 		return 0
@@ -21,14 +25,20 @@ func (r *Rng) Intn(n int) int {
 	return int(r.Uint64() % uint64(n))
 }
 
+//go:norace
 func (r *Rng) Float() float64 { return float64(r.Uint64()>>11) / float64(1<<53) }
 
+//go:norace
 func (r *Rng) Bool(p float64) bool { return r.Float() < p }
 
 // Fork derives an independent stream.
+//
+//go:norace
 func (r *Rng) Fork() *Rng { return NewRng(r.Uint64()) }
 
 // Perm returns a permutation of [0,n).
+//
+//go:norace
 func (r *Rng) Perm(n int) []int {
 	p := make([]int, n)
 	for i := range p {
@@ -47,7 +57,10 @@ type RandomWalk struct {
 	P float64
 }
 
+//go:norace
 func (s *RandomWalk) OnSpawn(k *Kernel, a *Actor) {}
+
+//go:norace
 func (s *RandomWalk) Pick(k *Kernel, cands []*Actor, curFirst bool, extra int) int {
 	n := len(cands) + extra
 	if cands == nil {
@@ -71,6 +84,7 @@ type PCT struct {
 	n       int
 }
 
+//go:norace
 func NewPCT(r *Rng, d int, expectedDecisions int) *PCT {
 	p := &PCT{R: r, Changes: map[int]bool{}, low: 0}
 	if expectedDecisions < 4 {
@@ -82,7 +96,10 @@ func NewPCT(r *Rng, d int, expectedDecisions int) *PCT {
 	return p
 }
 
+//go:norace
 func (s *PCT) OnSpawn(k *Kernel, a *Actor) { a.prio = 1 + s.R.Float() }
+
+//go:norace
 func (s *PCT) Pick(k *Kernel, cands []*Actor, curFirst bool, extra int) int {
 	if cands == nil {
 		return s.R.Intn(extra)
@@ -112,7 +129,10 @@ type Starve struct {
 	n      int
 }
 
+//go:norace
 func (s *Starve) OnSpawn(k *Kernel, a *Actor) {}
+
+//go:norace
 func (s *Starve) Pick(k *Kernel, cands []*Actor, curFirst bool, extra int) int {
 	if cands == nil {
 		return s.R.Intn(extra)
@@ -145,7 +165,10 @@ type Replay struct {
 	i    int
 }
 
+//go:norace
 func (s *Replay) OnSpawn(k *Kernel, a *Actor) {}
+
+//go:norace
 func (s *Replay) Pick(k *Kernel, cands []*Actor, curFirst bool, extra int) int {
 	n := len(cands) + extra
 	if cands == nil {
